@@ -267,9 +267,11 @@ def seal_extra(prop, tier, seed):
                     for wr in (True, False):
                         for ws in (False, True):
                             ops.append(dict(op="Rec", t=t, present=list(sub), wrapper=wr, withState=ws, rot=False))
+                            if t == "nodecreds" and "nonce" in sub:
+                                ops.append(dict(op="Rec", t=t, present=list(sub), wrapper=wr, withState=ws, rot=False, longNonce=True))
                             if wr:
                                 ops.append(dict(op="Rec", t=t, present=list(sub), wrapper=wr, withState=ws, rot=True))
-        for n in ("authorize", "token", "rotate", "dial", "dialtoken"):
+        for n in ("authorize", "token", "rotate", "rotateNamed", "dial", "dialtoken"):
             for ws in (False, True):
                 ops.append(dict(op="Flow", name=n, withState=ws))
         out.append(dict(id="x12_matrix", ops=ops))
